@@ -37,6 +37,12 @@ func GetJsonDataType(t dsl.Type) JsonDataType {
 		if p, ok := dsl.GetPrimitiveType(d.KeyType); ok && p == dsl.String {
 			return JsonObject
 		}
+		if st, ok := d.KeyType.(*dsl.SimpleType); ok {
+			if _, isTypeParameter := st.ResolvedDefinition.(*dsl.GenericTypeParameter); isTypeParameter {
+				// an object when the type argument is string, an array of pairs otherwise
+				return JsonObject | JsonArray
+			}
+		}
 		return JsonArray
 	}
 
